@@ -67,6 +67,14 @@ def r3_sent_only(ctx, floor_sends=7, floor_records=7, only_fns=None):
                       b.dominates(s["bi"], r["bi"]) and b.postdominates(r["bi"], s["bi"]) and render(r["term"][2][0]) in ("self.state", "self"),
                       "recording happens on every path after the send, into the engine's own state", sites=[r["sp"]],
                       got=render(r["term"])[:160], key="every-path")
+    for s in sends:
+        owner = mir.short(whomay.owner_fn(s["def"]))
+        g = s["body"].guard(s["bi"])
+        extra = sorted(set(mir.render_atom(a)[:100] for conj in g for a in conj
+                           if not (a[0] == "is" and render(a[1]) == "command")))
+        ctx.check("%s:send_requests<%s>@bb%d" % (owner, s["kind"], s["bi"]), not extra,
+                  "the requests are sent unconditionally once the action runs (only the command kind selects the action)",
+                  sites=[s["sp"]], got=extra, key="unconditional")
     for r in recs:
         owner = mir.short(whomay.owner_fn(r["def"]))
         src = _sent_of(r["term"][2][1])
